@@ -445,3 +445,8 @@ pub fn play_game_against_self(
         show_board(simple_print, &board);
     }
 }
+
+#[cfg(feature = "verif")]
+pub fn verif_send_search_info(search_info: &Search, depth: u8, eval: i32, start: Instant) {
+    send_search_info(search_info, depth, eval, start)
+}
